@@ -22,16 +22,27 @@ PARAMS = "const int i, const int j, const int p, const int q, const int m, const
 EXPRS = [
     ("comma", "(i,j)", "(m,n)"),
     ("cond", "c?i:j", "c?m:n"),
+    ("logor", "i||j", "m||n"),
+    ("logand", "i&&j", "m&&n"),
     ("bitor", "i|1", "m|1"),
+    ("bitxor", "i^1", "m^1"),
     ("bitand", "i&3", "m&3"),
     ("eq", "i==j", "m==n"),
+    ("rel", "i<j", "m<n"),
     ("shift", "i<<1", "m<<1"),
     ("add", "i+1", "m+1"),
+    ("sub", "j-i", "n-1"),
+    # multiplicative operators have the precedence of the '*' the index is combined with:
+    # N * j / 2 is (N*j)/2, not N*(j/2)  (added after a seeded change that only broke these)
+    ("mul", "i*2", "m*2"),
+    ("div", "j/2", "(m+4)/2"),
+    ("mod", "j%2", "(m+3)%3"),
     ("neg", "-i", "-m"),
+    ("not", "!i", "!m"),
     ("subscript", "a[i]", "a[m]"),
 ]
 PRIORITY = [e[0] for e in EXPRS]
-PAIR_CLASSES = ["cond", "bitand", "shift", "comma", "add"]
+PAIR_CLASSES = ["cond", "bitand", "shift", "comma", "add", "div"]
 TRIVIAL_IDX = ["i", "j", "p", "q"]
 TRIVIAL_DIM = ["3", "2", "2", "2"]
 
@@ -263,7 +274,7 @@ def main():
     c.set_exploration(
         evaluations=evaluations,
         distinct_nontrivial=distinct_total,
-        rule="all @dim accesses: arity 1-4 x (no @dimOrder | every permutation%s) x one non-trivial argument (9 operator classes: "
+        rule="all @dim accesses: arity 1-4 x (no @dimOrder | every permutation%s) x one non-trivial argument (18 operator classes: "
              "comma-in-parens, ?:, |, &, ==, <<, +, unary -, subscript) in every index and every dimension position, plus all pairs of "
              "positions over 5 classes for arity %s; rewritten by the Serial translator, compiled, evaluated for all i,j in [0,2], "
              "p,q in [0,1], m,n in [1,3], c in {0,1}; index == documented mixed-radix formula with parenthesised arguments; plain "
